@@ -83,10 +83,14 @@ func createTemporaryFile(fs escFS, content []byte) (string, error) {
 	if err != nil {
 		return "", err
 	}
-	defer contract.IgnoreClose(f)
 
-	if _, err = f.Write(content); err != nil {
-		contract.IgnoreClose(f)
+	// An error of Close counts like an error of Write: a failed write-back (ENOSPC, EDQUOT, EIO, NFS) may only be
+	// reported when the file is closed, and the file must not be handed to the command half-written.
+	_, err = f.Write(content)
+	if closeErr := f.Close(); err == nil {
+		err = closeErr
+	}
+	if err != nil {
 		rmErr := fs.Remove(filename)
 		contract.IgnoreError(rmErr)
 		return "", err
